@@ -20,10 +20,18 @@ import TinsModel.Wire.Chain.ViewAll
       `next_header_` for a RawPDU — which must not be an extension-header type — and a RawPDU behind a fragment header);
     * IPSecESP, UDP, TCP, ICMP, ICMPv6: followed by a RawPDU or nothing.
 
+    * EthernetII / Dot1Q / SNAP / SLL in front of ARP (0x0806) and of RC4EAPOL / RSNEAPOL (0x888e, through
+      `EAPOL::from_bytes`: the key-descriptor type octet must name the class, `EapolTyped`); LLC (DSAP = SSAP = 0x42) in front of STP;
+    * ARP, RTP, RC4EAPOL, RSNEAPOL: followed by a RawPDU or nothing;  STP, BootP, DHCP, DHCPv6: by nothing;
+      VXLAN: by EthernetII or nothing;
+    * RadioTap: by the Dot11 class `Dot11::from_bytes` selects from the frame-control octet, or — only when it announces an FCS
+      (the parsing constructor rejects a buffer with fewer than 4 bytes behind the options) — by nothing;
+      Dot11Data / Dot11QoSData: by SNAP (not protected), by a RawPDU (protected) or by nothing; every other Dot11 class: by nothing.
+
   Covered classes: the link-layer family (EthernetII, Dot3, LLC, SNAP, Dot1Q, MPLS, PPPoE, SLL, Loopback), IP, IPSecAH,
   IPSecESP, IPv6 (with extension headers), UDP, TCP (with options), ICMP, ICMPv6 (both without an RFC 4884 extension
-  structure), RawPDU.  Not covered (the predicate is `False` for them): PPI / PKTAP (not serializable), the App family (ARP,
-  STP, BootP/DHCP, DHCPv6, RTP, VXLAN) and the Wifi family — their per-class `*_reparse` theorems exist but are not lifted here.
+  structure), the App family (ARP, STP, VXLAN, RTP, BootP, DHCP, DHCPv6), the Wifi family (RadioTap, the 21 Dot11 classes,
+  RC4EAPOL, RSNEAPOL), RawPDU.  Not covered (the predicate is `False` for them): PPI / PKTAP (not serializable).
 -/
 namespace Tins.Wire.ChainAll
 open Tins Tins.Wire
@@ -61,6 +69,25 @@ def Ip6TailOK (p : Ip6.Ipv6) : Prop :=
   (Ip6.Ipv6.hasFragment p.headers = true ∨ Tags.classOfIpProto p.finalNext = none) ∧
   (p.headers = [] → p.nextHeader = p.finalNext)
 
+/-- EthernetII, Dot1Q, SNAP, SLL: the classes that dispatch on an EtherType and derive it from the inner class
+    (`pdu_flag_to_ether_type`: ARP → 0x0806, RC4EAPOL / RSNEAPOL → 0x888e) -/
+def l2Ether : L2.Obj → Prop
+  | .eth _ => True
+  | .dot1q _ => True
+  | .snap _ => True
+  | .sll _ => True
+  | _ => False
+
+/-- LLC in front of STP: both SAPs are 0x42 (the writer stores them when an STP follows, the parser dispatches on them) and
+    there are no XID information fields (never parsed back: KF-C04-L2-1) -/
+def l2ToStp : L2.Obj → Prop
+  | .llc l => l.dsap = 0x42 ∧ l.ssap = 0x42 ∧ l.infos = []
+  | _ => False
+
+/-- the protected-frame bit of the frame control field (`Dot11::wep()`): the data-frame constructors keep the body of a
+    protected frame as a RawPDU and hand every other body to SNAP -/
+def dot11Wep (d : Wifi.Dot11) : Bool := Wifi.byteAt d.hdr 1 / 64 % 2 == 1
+
 /-- each layer's successor is a class its next-protocol tag names under the dispatch the parser uses, or a RawPDU under a
     tag libtins does not dispatch on, or nothing -/
 def LinkAll (x : AnyObj) (r : List AnyObj) : Prop :=
@@ -69,6 +96,9 @@ def LinkAll (x : AnyObj) (r : List AnyObj) : Prop :=
     (match nextA r with
      | .obj (.ip (.ip i)) _ => l2ToNet x 4 i.version
      | .obj (.ip6 (.ip6 p)) _ => l2ToNet x 6 p.version
+     | .obj (.app (.arp _)) _ => l2Ether x
+     | .obj (.app (.stp _)) _ => l2ToStp x
+     | .obj (.wifi (.eapol e)) _ => l2Ether x ∧ EapolTyped e
      | _ => L2.Link x (L2.next r))
   | .ip (.ip o) =>
     (match nextA r with
@@ -88,12 +118,40 @@ def LinkAll (x : AnyObj) (r : List AnyObj) : Prop :=
      | .raw _ => Ip6TailOK p
      | .obj y _ => Ip6.Ipv6.hasFragment p.headers = false ∧ ProtoTier y
      | .bad => False)
-  | .ip (.esp _) | .tr _ | .icmp _ =>
+  | .ip (.esp _) | .tr _ | .icmp _ | .app (.arp _) | .app (.rtp _) | .wifi (.eapol _) =>
     (match nextA r with
      | .none => True
      | .raw _ => True
      | _ => False)
+  | .app (.stp _) | .app (.bootp _) | .app (.dhcp _) | .app (.dhcpv6 _) =>       -- never build an inner PDU
+    (match nextA r with
+     | .none => True
+     | _ => False)
+  | .app (.vxlan _) =>                                                            -- `new EthernetII`, no fallback
+    (match nextA r with
+     | .none => True
+     | .obj (.l2 (.eth _)) _ => True
+     | _ => False)
+  | .wifi (.radiotap t) =>            -- `Dot11::from_bytes`, no fallback; the constructor wants 4 bytes behind the options
+    (match nextA r with
+     | .none => t.trl = 4
+     | .obj (.wifi (.dot11 d)) _ => Wifi.Dot11.dispatch (Wifi.byteAt d.hdr 0) = d.cls
+     | _ => False)
+  | .wifi (.dot11 d) =>                              -- management / control: nothing; data: RawPDU (protected) or SNAP
+    (match nextA r with
+     | .none => True
+     | .raw p => p = [] ∨ (d.lay.payload = true ∧ dot11Wep d = true)
+     | .obj (.l2 (.snap _)) _ => d.lay.payload = true ∧ dot11Wep d = false
+     | _ => False)
   | _ => False
+
+/-- RadioTap: at least one present word, `it_len` = 4 + |options| fits its 16 bits, and the FLAGS field (when present) does
+    not carry "FCS at end" together with "bad FCS" (`RadioTap::RadioTap` throws `malformed_packet` on such frames) -/
+structure RtSide (t : Wifi.RadioTap) : Prop where
+  len : 4 ≤ t.payload.length ∧ 4 + t.payload.length < 65536
+  flags : ∀ p0 p fv, Wifi.RtParser.init t.payload = .ok p0 →
+    Wifi.RtParser.skipToField Wifi.RtParser.skipFuel p0 1 = .ok p → p.hasFields = true → t.payload[p.ptr]? = some fv →
+    ¬ (fv.toNat / 16 % 2 = 1 ∧ fv.toNat / 64 % 2 = 1)
 
 /-- the side conditions of the per-class `*_reparse` theorems:
     * IP: wire-normal options (what the parser produces: no END among them, advertised = real length); the datagram fits
@@ -104,9 +162,29 @@ def LinkAll (x : AnyObj) (r : List AnyObj) : Prop :=
     * ICMP / ICMPv6: type and code are bytes; **no RFC 4884 extension structure** (`ext = ExtS.default`: the structure's
       version / reserved fields are not on the wire without objects); for the error-message types the quote is
       `ghostFree` (the re-parser finds no structure where the derived length points);  ICMPv6 additionally: an MLDv1 query
-      has no MLDv2 members, and the body / option list are what the wire format can express (`BodyWire`, `OptsWire`). -/
+      has no MLDv2 members, and the body / option list are what the wire format can express (`BodyWire`, `OptsWire`);
+    * RTP: `Rtp.Canon` (32-bit CSRC / extension words, CSRC count = stored identifiers);  BootP: the 64-byte vendor area;
+      DHCP / DHCPv6: canonical options (`Dhcp.Canon`: 8-bit code, length byte = data length < 256, PAD / END bare —
+      KF-WApp-6 is the excluded part; `Dhcpv6.Canon`: 16-bit code and length);
+    * Dot11 classes: `Dot11.Canon` (tagged options the 8-bit length can express, none on classes without tagged parameters,
+      `addr4` zero when not on the wire) and the layout of the class the object claims to be;
+    * RC4EAPOL / RSNEAPOL: the key fits its 16-bit length field, an empty key goes with a zero length field (or the frame
+      ends behind the sub-header: what the constructors make of a frame whose key-length field exceeds the bytes present),
+      and the frame fits the 16-bit EAPOL length (`size() − 4 < 65536`);  RadioTap: `RtSide`. -/
 def Side (x : AnyObj) (r : List AnyObj) : Prop :=
   match x with
+  | .app (.arp _) => True
+  | .app (.vxlan _) => True
+  | .app (.stp _) => True
+  | .app (.rtp t) => t.Canon
+  | .app (.bootp p) => p.vend.length = 64
+  | .app (.dhcp d) => ∀ o ∈ d.opts, App.Dhcp.Canon o
+  | .app (.dhcpv6 d) => ∀ o ∈ d.opts, App.Dhcpv6.Canon o
+  | .wifi (.dot11 d) => d.Canon ∧ Wifi.layoutOf d.cls = some d.lay
+  | .wifi (.eapol e) => e.key.length < 65536 ∧
+      (e.key = [] → Wifi.Eapol.beAt e.sub (Wifi.Eapol.keyLenOff e.rsn) 2 = 0 ∨ r = []) ∧
+      e.hdrSize + sizeOfStack r < 65540
+  | .wifi (.radiotap t) => RtSide t
   | .l2 _ => True
   | .ip (.ip o) => o.Normal ∧ o.hdr + sizeOfStack r < 65536
   | .ip (.ah a) => a.Repr
